@@ -22,7 +22,9 @@ structure Inv (l : CLog) : Prop where
   consecutive segments are linked exactly (hence every segment but the last holds a record). -/
   link : ∀ i a b, l.segs[i]? = some a → l.segs[i + 1]? = some b → b.base = a.nextOffset
 
-theorem Inv.wf {l : CLog} (h : Inv l) : WF l.segs := ⟨h.sorted, h.base_le, h.chain, h.link⟩
+theorem Inv.wf {l : CLog} (h : Inv l) : WF l.segs := ⟨⟨h.sorted, h.base_le, h.chain⟩, h.link⟩
+
+theorem Inv.wfc {l : CLog} (h : Inv l) : WFC l.segs := h.wf.toWFC
 
 theorem Inv.of_wf {l : CLog} (hne : l.segs ≠ []) (hm : 0 < l.maxSegBytes) (wf : WF l.segs) : Inv l :=
   ⟨hne, hm, wf.sorted, wf.base_le, wf.chain, wf.link⟩
@@ -330,7 +332,7 @@ theorem truncate_cases {l : CLog} (h : Inv l) (o : Int) :
     have hlen : pre.length ≠ 0 ↔ pre ≠ [] := by
       cases pre <;> simp
     unfold truncate
-    rw [findSegmentIdx_of_split h.wf hs hx hpre]
+    rw [findSegmentIdx_of_split h.wfc hs hx hpre]
     simp only [hget, htake, Gen.Log.truncateBaseCmp, Gen.Log.truncateKeepCmp, Cmp.evalInt,
       decide_eq_true_eq, hlen]
     by_cases hc : x.base = o ∧ pre ≠ []
